@@ -4,6 +4,7 @@ package main
 // a second signer, stored in the attacker's block store, delivered by any route.
 
 import (
+	"math/big"
 	"context"
 	"encoding/json"
 	"fmt"
@@ -68,6 +69,9 @@ func (w *World) declareForged(p int, e *entry.Entry) string {
 	sig := 0
 	if err := e.Verify(w.peers[p].identity.Provider, io); err == nil {
 		sig = 1
+	}
+	if w.sigOverride != nil {
+		sig = *w.sigOverride
 	}
 	hashok := 0
 	func() {
@@ -177,6 +181,46 @@ func (w *World) forge(ctx context.Context, toks []string) {
 		refs = append(refs, w.entryByName(x).GetHash())
 	}
 	io := w.stores0().IO()
+	if recipe == "malleate" {
+		// an exact copy of a GENUINE entry (the head of `base`'s log, whoever wrote it) whose ECDSA
+		// signature (r, s) is rewritten to (r, n-s): just as valid for the same content and key, but other
+		// bytes, hence another address. Anybody who has seen the entry can make one; the writer never
+		// wrote it. Declared with sig=0: it is not a signature the writer produced.
+		var src *entry.Entry
+		if b, ok := args["base"]; ok && b != "none" {
+			if s, ok := w.stores[atoi(b)]; ok {
+				if hs := s.OpLog().Heads().Slice(); len(hs) > 0 {
+					src, _ = hs[0].(*entry.Entry)
+				}
+			}
+		}
+		if src == nil || len(src.GetSig()) == 0 {
+			w.lastForged = "e0"
+			w.printf("forged %d err nothing-to-copy\n", a)
+			return
+		}
+		flipped := flipS(src.GetSig())
+		if flipped == nil {
+			w.lastForged = "e0"
+			w.printf("forged %d err not-a-der-signature\n", a)
+			return
+		}
+		t := src.Copy().(*entry.Entry)
+		t.SetSig(flipped)
+		h, err := entry.ToMultihashWithIO(ctx, t, att.api, nil, io)
+		if err != nil {
+			w.lastForged = "e0"
+			w.printf("forged %d err %s\n", a, strings.ReplaceAll(err.Error(), "\n", " "))
+			return
+		}
+		t.SetHash(h)
+		zero := 0
+		w.sigOverride = &zero
+		w.lastForged = w.declareForged(a, t)
+		w.sigOverride = nil
+		w.printf("forged %d %s\n", a, w.lastForged)
+		return
+	}
 	data := &entry.Entry{
 		LogID:   w.dbAddr,
 		Payload: w.payloadFor(unhx(args["k"]), unhx(args["v"])),
@@ -284,6 +328,10 @@ func (w *World) forge(ctx context.Context, toks []string) {
 		e.SetIdentity(&f)
 	case "mut-logid":
 		e.SetLogID(w.dbAddr + "x")
+	case "noident":
+		// the identity block removed altogether (an entry-shaped block somebody serves: reachable only as
+		// an ancestor, a head without identity is refused when the message is decoded)
+		e.SetIdentity(nil)
 	case "badhash":
 		// content changed, claimed address kept. The address still names the original (valid) entry,
 		// which is what anyone fetching it gets; the tampered form exists only inside messages and is
@@ -321,7 +369,16 @@ func (w *World) forge(ctx context.Context, toks []string) {
 		panic("unknown recipe " + recipe)
 	}
 	if rehash && recipe != "honest" && recipe != "own" && recipe != "copiedid" && recipe != "foreignkey" && recipe != "otherlog" && recipe != "othertype" && recipe != "selfsigned" {
-		h, err := entry.ToMultihashWithIO(ctx, e, att.api, nil, io)
+		var h cid.Cid
+		var err error
+		func() {
+			defer func() {
+				if r := recover(); r != nil {
+					err = fmt.Errorf("encoder panicked: %v", r)
+				}
+			}()
+			h, err = entry.ToMultihashWithIO(ctx, e, att.api, nil, io)
+		}()
 		if err != nil {
 			w.lastForged = "e0"
 			w.printf("forged %d err %s\n", a, strings.ReplaceAll(err.Error(), "\n", " "))
@@ -410,4 +467,35 @@ func (w *World) execForgeOp(ctx context.Context, toks []string) (bool, error) {
 		return false, nil
 	}
 	return true, nil
+}
+
+// flipS rewrites a strict-DER ECDSA signature (r, s) into (r, n-s), the other signature that verifies
+// for the same message and key (n: the order of the secp256k1 group)
+func flipS(der []byte) []byte {
+	if len(der) < 8 || der[0] != 0x30 || int(der[1]) != len(der)-2 || der[2] != 0x02 {
+		return nil
+	}
+	rLen := int(der[3])
+	if 5+rLen >= len(der) || der[4+rLen] != 0x02 {
+		return nil
+	}
+	r := der[4 : 4+rLen]
+	sLen := int(der[5+rLen])
+	if 6+rLen+sLen != len(der) {
+		return nil
+	}
+	sv := der[6+rLen : 6+rLen+sLen]
+	n, _ := new(big.Int).SetString("FFFFFFFFFFFFFFFFFFFFFFFFFFFFFFFEBAAEDCE6AF48A03BBFD25E8CD0364141", 16)
+	f := new(big.Int).Sub(n, new(big.Int).SetBytes(sv))
+	if f.Sign() <= 0 {
+		return nil
+	}
+	sb := f.Bytes()
+	if sb[0]&0x80 != 0 {
+		sb = append([]byte{0}, sb...)
+	}
+	out := []byte{0x30, byte(2 + len(r) + 2 + len(sb)), 0x02, byte(len(r))}
+	out = append(out, r...)
+	out = append(out, 0x02, byte(len(sb)))
+	return append(out, sb...)
 }
